@@ -2257,6 +2257,9 @@ class SequenceAndSetBase(base.ConstructedAsn1Type):
             return key in self._dynamicNames
 
     def __len__(self):
+        if self._componentValues is noValue:
+            return 0
+
         return len(self._componentValues)
 
     def __iter__(self):
@@ -2716,6 +2719,10 @@ class SequenceAndSetBase(base.ConstructedAsn1Type):
         """
         scope += 1
         representation = self.__class__.__name__ + ':\n'
+
+        if self._componentValues is noValue:
+            return representation
+
         for idx, componentValue in enumerate(self._componentValues):
             if componentValue is not noValue and componentValue.isValue:
                 representation += ' ' * scope
@@ -3209,6 +3216,10 @@ class Choice(Set):
     def clear(self):
         self._currentIdx = None
         return Set.clear(self)
+
+    def reset(self):
+        self._currentIdx = None
+        return Set.reset(self)
 
     # compatibility stubs
 
